@@ -405,3 +405,104 @@ class Parse_:
             yield "ensures.testnet", eq(o.fields.get("testnet"), I.testnet)
             yield "ensures.no_parent", o.fields.get("parent") is None
             yield "ensures.stream_consumed", c.deref(I.s).pos == 78
+
+
+# ======================================================================================= C07 round trip
+from pyvc.engine import HBytesIO      # noqa: E402
+from pyvc.engine import value_eq      # noqa: E402
+
+
+class _XkeyRoundTrip:
+    """C07: serialising any node under any version and parsing the result back from a string, bytes or a stream
+    yields an EQUAL node (the class's own __eq__) that re-serialises under parsed_version to the identical value;
+    the public serialisation of a private node round-trips as a PUBLIC node with the same public key"""
+    props = ("C07",)
+    private = True
+    public_form = False
+
+    @property
+    def target(self):
+        if self.private and not self.public_form:
+            return "btc_hd_wallet.bip32.PrvKeyNode.serialize_private"
+        return "btc_hd_wallet.bip32.PubKeyNode.serialize_public"
+
+    def _do(self, callf, getattrf, R, I, node, rargs):
+        form = I.form
+        version = I.version
+        prv_out = self.private and not self.public_form
+        if form == 0:
+            s = callf(getattrf(node, "extended_private_key" if prv_out else "extended_public_key"), [], dict(version=version))
+        else:
+            s = callf(getattrf(node, "serialize_private" if prv_out else "serialize_public"), [], dict(version=version))
+        I.serialised = s
+        cls = R.bip32.PrvKeyNode if prv_out else R.bip32.PubKeyNode
+        return s, cls
+
+    def run(self, ctx, f, args, kwargs, I):
+        R = repo()
+        node = args[0]
+        s, cls = self._do(lambda fn, a, k: ctx.call_value(fn, a, k), ctx.getattr, R, I, node, args)
+        src = s
+        if I.form == 2:
+            src = ctx.alloc(HBytesIO(as_rope(s)))
+        parsed = ctx.call_value(ctx.getattr(cls, "parse"), [src], dict(testnet=I.n.testnet))
+        I.parsed = parsed
+        prv_out = self.private and not self.public_form
+        pv = ctx.getattr(parsed, "parsed_version")
+        if I.form == 0:
+            again = ctx.call_value(ctx.getattr(parsed, "extended_private_key" if prv_out else "extended_public_key"), [], dict(version=pv))
+        else:
+            again = ctx.call_value(ctx.getattr(parsed, "serialize_private" if prv_out else "serialize_public"), [], dict(version=pv))
+        I.again = again
+        if prv_out or not self.private:
+            I.equal = value_eq(ctx, parsed, node)
+        else:
+            I.equal = None
+        return parsed
+
+    def run_real(self, f, rargs, rkw, I):
+        import io
+        R = repo()
+        node = rargs[0]
+        prv_out = self.private and not self.public_form
+        meth = ("extended_" + ("private" if prv_out else "public") + "_key") if I.form == 0 else ("serialize_" + ("private" if prv_out else "public"))
+        s = getattr(node, meth)(version=I.version)
+        I.serialised = s
+        cls = R.bip32.PrvKeyNode if prv_out else R.bip32.PubKeyNode
+        src = io.BytesIO(s) if I.form == 2 else s
+        parsed = cls.parse(src, testnet=I.n.testnet)
+        I.again = getattr(parsed, meth)(version=parsed.parsed_version)
+        I.equal = (parsed == node) if (prv_out or not self.private) else None
+        return parsed
+
+    def inputs(self, B):
+        mk = sym_prv_node if self.private else sym_pub_node
+        ref, n = mk(B, "self", with_parent=True, depth_hi=256)
+        version = B.int("version", 0, 2 ** 32)
+        form = B.case("input_form", 3)             # 0: Base58Check string, 1: bytes, 2: BytesIO
+        # BIP32-valid payloads: a depth-0 node is a master node (zero fingerprint and child number)
+        if n.ppf is not None:
+            B.assume(lnot(land(n.depth == 0, n.index == 0)))
+        B.assume(implies(n.depth == 0, n.index == 0))
+        if n.parent is not None:
+            B.assume(n.depth >= 1)         # a node with a parent is not at depth 0
+        return [ref], {}, NS(n=n, version=version, form=form)
+
+    def post(self, c, I, out):
+        yield "ensures.returns", out.returned
+        if not out.returned:
+            return
+        n = I.n
+        yield "ensures.reserialises_identically", eq(I.again, I.serialised)
+        if I.equal is not None:
+            yield "ensures.parsed_node_equals_original", I.equal
+        o = c.deref(out.value)
+        yield "ensures.parsed_version", eq(o.fields.get("parsed_version"), I.version)
+        yield "ensures.depth_index_chain", land(eq(o.fields.get("depth"), n.depth), eq(o.fields.get("index"), n.index), eq(o.fields.get("chain_code"), n.cc))
+        if self.private and self.public_form:
+            yield "ensures.public_node_with_public_key_only", eq(o.fields.get("key"), serP(U.ecmul(n.k)))
+
+
+for _name, _kw in (("XkeyRoundTripPrv", dict(private=True, public_form=False)), ("XkeyRoundTripPub", dict(private=False, public_form=False)),
+                   ("XkeyRoundTripPrvAsPub", dict(private=True, public_form=True))):
+    CONTRACTS.append(type(_name, (_XkeyRoundTrip,), _kw)())
